@@ -1735,7 +1735,9 @@ class Pgate(Gate):
     def _decompose(self, reg, **kwargs):
         # into a squeeze and a rotation
         temp = self.p[0] / 2
-        r = pf.acosh(pf.sqrt(1 + temp**2))
+        # cosh(r) = sqrt(1 + temp^2) with r >= 0, i.e. sinh(r) = |temp|: the asinh form keeps
+        # its precision for small arguments (acosh(sqrt(1 + temp^2)) is 0 for |temp| < 1e-8)
+        r = pf.asinh(pf.Abs(temp))
         theta = pf.atan(temp)
         phi = -np.pi / 2 * pf.sign(temp) - theta
         return [Command(Sgate(r, phi), reg), Command(Rgate(theta), reg)]
